@@ -27,7 +27,7 @@ TARGET_NAMES = {'nruns_so_far', 'nf', 'nx', 'rhoend', 'rhobeg', 'exit_info', 'ob
                 'rvec', 'obj', 'nsamples', 'x_eval_num', 'jac_eval_nums', 'xmin2', 'rmin2', 'objmin2', 'jacmin2', 'nsamples2',
                 'xmin_eval_num2', 'jacmin_eval_nums2', 'diagnostic_info', 'r0_avg', 'obj0_avg', 'nx_so_far', 'nf_so_far', 'x0_eval_num',
                 'xlb', 'xub', 'xp', 'bproj', 'xabs', 'ok_to_do_restart', 'soln_dict', 'resid', 'jacobian', 'flag', 'msg', 'soln', 'output', 'd', 'P', 'p', 'pred_reduction', 'g', 'H', 'J', 'r', 'W', 'right_scaling', 'left_scaling',
-                'eval_nx', 'tau', 'kmin', 'knew', 'sq_distances', 'all_sq_dist', 'furthest_points', 'closest_points', 'distsq', 'upper_limit', 'xopt'}
+                'eval_nx', 'tau', 'bounds_error', 'kmin', 'knew', 'sq_distances', 'all_sq_dist', 'furthest_points', 'closest_points', 'distsq', 'upper_limit', 'xopt'}
 COMMITS = {'save_point', 'change_point', 'add_new_point'}
 FILES = ('util', 'model', 'controller', 'solver', 'trust_region', 'params', 'diagnostic_info')
 
